@@ -671,6 +671,8 @@ func (s *treeScn) finish(root *tnode, how string, cancel context.CancelFunc) (st
 	}()
 	select {
 	case <-closeRet:
+		// the controller is done: nothing it started may still be running, in particular no List call
+		tr.LogRaw("drv", "done.inflight", fmt.Sprintf(`"lists":%d`, s.srv.InFlight()))
 		tr.LogRaw("drv", "ret.close", `"node":0,"timeout":false`)
 	case <-time.After(5 * time.Second):
 		tr.LogRaw("drv", "ret.close", `"node":0,"timeout":true`)
